@@ -113,6 +113,7 @@ type vWorldCfg struct {
 	DataDir    string  `json:"-"`
 	NoAof      bool    `json:"noaof"`
 	RealClock  bool    `json:"realclock"`
+	Subscribe  bool    `json:"subscribe"`
 }
 
 type vWorld struct {
@@ -182,6 +183,7 @@ func vNewConfig(c vWorldCfg) *ServerConfig {
 		serverConfig.AofFileRewriteSize = c.RewriteSz
 	}
 	serverConfig.DataDir = c.DataDir
+	serverConfig.SubscribeEnabled = c.Subscribe
 	return serverConfig
 }
 
